@@ -421,6 +421,14 @@ class Env:
         wf = self.store.retrieve(self.wf_id)
         Orchestrator(self.queue, store=self.store).start(wf)
 
+    def queue_max_id(self) -> int:
+        """highest id the queue table has ever allocated (AUTOINCREMENT sequence)"""
+        try:
+            r = self.hconn.execute("SELECT seq FROM sqlite_sequence WHERE name = 'queue_messages'").fetchone()
+            return int(r[0]) if r else 0
+        except Exception:
+            return 0
+
     def rows(self) -> list[dict]:
         out = []
         for r in self.hconn.execute("SELECT id, message_type, payload, attempts, deliver_at, locked_until, max_attempts "
